@@ -351,6 +351,18 @@ def compose_raw(load, text):
         ld.dispose()
 
 
+_PLAIN_LOAD = None
+
+
+def compose_raw_text(text):
+    """The node graph yatiml's loader composes from text (its resolver tables), before any processing."""
+    global _PLAIN_LOAD
+    import yatiml
+    if _PLAIN_LOAD is None:
+        _PLAIN_LOAD = yatiml.load_function()
+    return compose_raw(_PLAIN_LOAD, text)
+
+
 def run_case(specs, tyspec, text, desc='', model=None):
     import yatiml
     c = Case()
